@@ -12,8 +12,10 @@ The environment (DESIGN §6 C14, "Environment, fixed precisely"):
 * application: at most the documented calls — code entry (any of the three, repeatedly: the
   repeats raise `OnlyOneCodeError`), helper calls in any order once `input_code()` returned,
   `send`, `close` at any time and repeatedly; **no code entry or helper call after `close()`**;
-* network: a connection can come up whenever none exists and the service was not stopped; it can
-  drop at any time; the very first attempt can fail; after `stopService()` nothing more is read;
+* network: a connection can come up whenever none exists and the service was not stopped — in one step
+  (`wsOpen`) or in two (`tcpUp`: the TCP connection exists and the WebSocket negotiation is pending, then
+  `wsOpen` or `wsFail`); it can drop at any time; the very first attempt can fail; after `stopService()`
+  nothing more is read, and a connection that was still negotiating then goes away without ever opening;
 * server: `welcome` (with or without `error`) is the first frame of every connection; `claimed`,
   `released`, `closed`, `allocated` answer the matching command of *this* connection in FIFO
   order; `nameplates` answers `list`; an `error` frame may replace any answer; stored mailbox
@@ -88,7 +90,7 @@ structure Mon where
 instance : Hashable Ctl where
   hash c := mixHash (hash (c.b, c.n, c.m, c.t, c.c, c.a, c.l))
     (mixHash (hash (c.i, c.k, c.sk, c.o, c.r, c.s))
-      (mixHash (hash (c.wsOpen, c.everConnected, c.stopping, c.stopPending, c.didStartCode, c.helper, c.pakeProcessed))
+      (mixHash (hash (c.wsOpen, c.halfOpen, c.everConnected, c.stopping, c.stopPending, c.didStartCode, c.helper, c.pakeProcessed))
         (mixHash (hash (c.versionProcessed, c.orderQ, c.sendQ, c.haveNameplate, c.haveMailbox, c.mood))
           (hash (c.rKey, c.sKey, c.spStarted, c.stashedPake, c.result)))))
 
@@ -109,10 +111,11 @@ def enabled (s : Sys) (e : Event) : Bool :=
   | .hRefresh | .hNameplateCompletions | .hChooseNameplate _ | .hWordCompletions | .hChooseWords =>
     c.helper && !v.appClosed
   | .send | .close => true
+  | .tcpUp => !c.wsOpen && !c.halfOpen && !v.svcStopped
   | .wsOpen => !c.wsOpen && !v.svcStopped
   | .wsClose => c.wsOpen && !c.stopPending
   | .wsFail => !c.wsOpen && !v.svcStopped          -- a connection attempt whose WebSocket negotiation fails
-  | .failInitial => !c.everConnected && !c.wsOpen && !v.svcStopped && !v.initialFailed
+  | .failInitial => !c.everConnected && !c.wsOpen && !c.halfOpen && !v.svcStopped && !v.initialFailed
   | .svcStopped => c.stopPending
   | .welcome _ => reading && !v.welcomed
   | .claimed => frames && v.singles.head? = some .claimed
@@ -274,7 +277,7 @@ def sysStep (s : Sys) (e : Event) : Sys × Outcome :=
 def allEvents : List Event :=
   [.setCode true, .setCode false, .allocateCode, .inputCode,
    .hRefresh, .hNameplateCompletions, .hChooseNameplate true, .hChooseNameplate false, .hWordCompletions, .hChooseWords,
-   .send, .close, .wsOpen, .wsClose, .wsFail, .failInitial, .svcStopped,
+   .send, .close, .tcpUp, .wsOpen, .wsClose, .wsFail, .failInitial, .svcStopped,
    .welcome false, .welcome true, .claimed, .released, .closedResp, .allocated, .nameplates, .serverError,
    .message .ours .pake true true .good, .message .ours .version true true .good, .message .ours .num true true .good,
    .message .theirs .pake true true .good, .message .theirs .pake true false .good,
